@@ -14,6 +14,18 @@ import collections
 from .core import Site, term_path
 from .vfg import place_of
 
+def norm_path(prog, path):
+    """Body key of a callee path (generic arguments stripped the way Program keys its bodies)."""
+    if path in prog.bodies:
+        return path
+    from .effects import norm
+    n = norm(path)
+    for k in prog.bodies:
+        if norm(k) == n:
+            return k
+    return path
+
+
 TRY_BRANCH = "std::ops::Try::branch"
 FROM_RESIDUAL = "std::ops::FromResidual::from_residual"
 RESULT_ADAPTERS = {"std::result::Result::map_err", "std::result::Result::map",
@@ -37,6 +49,58 @@ class ResultFlow(object):
         t = self.prog.types[ty_ix]
         return t.get("k") == "adt" and t["def"] == RESULT_DEF
 
+    def _is_result_wrapper(self, term):
+        """A call to a crate-local helper that only decorates the error of the Result it is given (`fn ctx(self, ..) ->
+        Result<T, E2> { self.map_err(..) }`): Ok exactly when its first argument is Ok."""
+        c = term.get("callee") or {}
+        path = c.get("resolved") if c.get("rlocal") else (c.get("path") if c.get("local") else None)
+        if path is None:
+            return False
+        cache = self.prog.__dict__.setdefault("_result_wrappers", {})
+        if path in cache:
+            return cache[path]
+        cache[path] = False
+        tb = self.prog.bodies.get(norm_path(self.prog, path))
+        ok = False
+        if tb is not None and tb.argc >= 1 and self.is_result(tb.locals[1]) and self.is_result(tb.locals[0]):
+            rets = [(bb, j, rv) for (bb, j, rv) in tb.assignments().get(0, [])]
+            ok = bool(rets)
+            for (bb, j, rv) in rets:
+                if j != "term" or term_path(rv) not in RESULT_ADAPTERS or not rv["args"]:
+                    ok = False
+                    break
+                pl = place_of(rv["args"][0])
+                # the adapter's receiver is the first parameter (possibly through one move)
+                for _ in range(3):
+                    if pl is None or pl["p"]:
+                        break
+                    if pl["l"] == 1:
+                        break
+                    d = tb.assignments().get(pl["l"], [])
+                    if len(d) == 1 and d[0][1] != "term" and d[0][2]["k"] == "use":
+                        pl = place_of(d[0][2]["op"])
+                    else:
+                        pl = None
+                if pl is None or pl["p"] or pl["l"] != 1:
+                    ok = False
+                    break
+        cache[path] = ok
+        return ok
+
+    def _literal_polarity(self, local, depth=0):
+        """'ok' / 'err' if the local is a Result built right here as `Ok(..)` / `Err(..)` (through moves)."""
+        defs = self.body.assignments().get(local, [])
+        if len(defs) != 1 or depth > 4 or defs[0][1] == "term":
+            return None
+        rv = defs[0][2]
+        if rv["k"] == "agg" and rv.get("ak") == "adt" and rv.get("def") == RESULT_DEF:
+            return "ok" if rv.get("vn") == "Ok" else "err"
+        if rv["k"] == "use":
+            pl = place_of(rv["op"])
+            if pl is not None and not pl["p"]:
+                return self._literal_polarity(pl["l"], depth + 1)
+        return None
+
     def origin_call(self, local, depth=0):
         """The call terminator (bb) whose Result this local carries, through moves and map_err."""
         if local in self._origin_cache:
@@ -48,7 +112,7 @@ class ResultFlow(object):
             bb, j, rv = defs[0]
             if j == "term":
                 p = term_path(rv)
-                if p in RESULT_ADAPTERS and rv["args"]:
+                if (p in RESULT_ADAPTERS or self._is_result_wrapper(rv)) and rv["args"]:
                     pl = place_of(rv["args"][0])
                     if pl is not None and not pl["p"]:
                         res = self.origin_call(pl["l"], depth + 1)
@@ -81,13 +145,17 @@ class ResultFlow(object):
                     self.forwarded[bb] = "err"
                 elif self.is_result(body.locals[0]):
                     o = bb
-                    if p in RESULT_ADAPTERS and t["args"]:
+                    pol = None
+                    if (p in RESULT_ADAPTERS or self._is_result_wrapper(t)) and t["args"]:
                         pl = place_of(t["args"][0])
                         if pl is not None and not pl["p"]:
+                            pol = self._literal_polarity(pl["l"])
                             o = self.origin_call(pl["l"])
                             if o is None:       # (block 0 is a valid origin: no `or`)
                                 o = bb
-                    self.forwarded[bb] = ("fwd", o)
+                    # `return Err(e).map_err(..)` / `Err(e).context(..)`: the adapter is applied to a literal Err
+                    self.forwarded[bb] = pol if pol is not None and p not in (
+                        "std::result::Result::or", "std::result::Result::or_else") else ("fwd", o)
 
     def _ret_assign(self, bb, rv):
         body = self.body
